@@ -199,14 +199,23 @@ def run(ctx):
         mlines2.append(st + ";")
     pimpl = stages.run_harness(ctx, "declarators", plines)
     pmodel = leanb.model("declparser", "\n".join(mlines2) + "\n")
-    npd = nacc = 0
+    npd = nacc = nprw = 0
     for st, pl, a, m in zip(strings, plines, pimpl, pmodel):
         f = fields(a) if a.startswith("ast=") else {}
         # rejected = a parser diagnostic, or the declaration silently missing from the tree (a failure inside a speculative parse whose
         # delayed diagnostics are dropped)
         perr = any(d.startswith("Parser-") for d in f.get("diags", "-").split(",")) or f.get("ast", "-").strip() == "-"
         macc = m != "none" and not m.startswith("bad")
-        mtree = m if macc else None
+        mtree = m.split(" | ")[0] if macc else None
+        if macc:
+            # the printer `pr` and the predicate `wf` of the theorems parse_print / text_to_type describe what the parser builds:
+            # printing the parsed list gives back the tokens (array sizes apart), and every parsed declarator is well-formed
+            mf = dict(kv.split("=", 1) for kv in m.split(" | ")[1].split())
+            if mf.get("wf") != "1" or mf.get("pr", "").replace(",.", ".") != (st + ";").replace("3", "").replace(",.", "."):    # the comma before `...` is not insisted on
+                nprw += 1
+                if nprw <= 3:
+                    ctx.report("printer:" + st, "declarator tokens %r: the Lean parser model builds %s, which is %swell-formed (wf) and prints (pr) as %r"
+                               % (st, mtree, "" if mf.get("wf") == "1" else "NOT ", mf.get("pr")), {"theorem": "PsycheModel.DeclParser.parse_print (printer / wf vs parser)"}, no_input=True)
         itree = None
         mm = re.match(r"Dv int (\d+ .*)$", f.get("ast", "").strip())
         if mm and " ; " not in mm.group(1):
@@ -225,6 +234,7 @@ def run(ctx):
     ctx.notes["parser_model_cases"] = len(strings)
     ctx.notes["parser_model_accepted"] = nacc
     ctx.notes["parser_model_disagreements"] = npd
+    ctx.notes["printer_or_wf_mismatches_on_parsed_strings"] = nprw
     # the recorded blind spots of symbol-table-free parsing, printed as known findings while they reproduce
     blines = ["1 " + t.encode().hex() for _, t, _ in BLIND]
     for (key, text, want), o in zip(BLIND, stages.run_harness(ctx, "declarators", blines)):
